@@ -569,6 +569,8 @@ var (
 	reverterRuntime = unhx("60006000fd")
 	// CALLER SELFDESTRUCT: pays its whole balance to whoever calls it and is gone
 	suiciderRuntime = unhx("33ff")
+	// ADDRESS SELFDESTRUCT: destroys itself into itself - whatever it holds is burnt (by EVM definition)
+	burnerRuntime = unhx("30ff")
 )
 
 func initCodeFor(runtime []byte) []byte {
@@ -881,8 +883,10 @@ func (s *GenSource) genTx(w *World, b *Block) ([]byte, string) {
 		switch k := unif(t, 100, "deployTemplate"); {
 		case k >= 80:
 			code, tmpl = initCodeFor(reverterRuntime), "reverter"
-		case k >= 60:
+		case k >= 62:
 			code, tmpl = initCodeFor(suiciderRuntime), "suicider"
+		case k >= 52:
+			code, tmpl = initCodeFor(burnerRuntime), "burner"
 		}
 		if pct(t, 30, "deployValue") {
 			sp.amount = u256(uint64(rapid.IntRange(1, 1000).Draw(t, "deployVal")))
